@@ -57,6 +57,8 @@ type VC struct {
 	oblCount      map[string]int
 	callCovers    int
 	callAssertHit map[*CallAssert]bool
+	trackLocks    bool
+	sameBlockOK   bool
 	casNames      map[string]bool
 	casPre        map[string]bool // registered before encoding started (entry value known false)
 	assumed       map[string]bool
@@ -977,7 +979,10 @@ func (vc *VC) lookupLocal(fr *Frame, name string, at *ssa.BasicBlock, st *State,
 				if ci, ok := cand.(ssa.Instruction); ok {
 					cb = ci.Block()
 				}
-				if cb != nil && at != nil && !(cb.Dominates(at) && cb != at) {
+				if cb != nil && at != nil && cb == at && vc.sameBlockOK {
+					// a call-site assertion is evaluated in the middle of a block: values computed earlier
+					// in that block are visible
+				} else if cb != nil && at != nil && !(cb.Dominates(at) && cb != at) {
 					if _, isPhi := cand.(*ssa.Phi); !(isPhi && cb == at) {
 						continue
 					}
